@@ -128,5 +128,16 @@ fn main() {
         }
         run_system(&mut out, &spec, bound, i < 3);
     }
+    // BIG systems (66-72 actors, more than a machine word has bits): which actor is down, whose timers and choices are
+    // discarded and the crash budget must not depend on the actor's index modulo anything; sparse tables, small bound
+    for _ in 0..(if th { 6 } else { 2 }) {
+        let mut rr = r.fork();
+        let p = GenParams { actors: (66, 72), density: 6, max_cmds: 1, states: (2, 2), max_crashes: (2, 3), ghost_dst: false, ..Default::default() };
+        let mut spec = gen_sys(&mut rr, &p);
+        spec.hist.in_mode = 0; spec.hist.out_mode = 0;
+        spec.init_envs.truncate(2);
+        out.stat("big-systems-66-to-72-actors");
+        run_system(&mut out, &spec, 50, false);
+    }
     out.finish();
 }
